@@ -222,7 +222,7 @@ class Ctx:
 
     # -- harness + monitor -------------------------------------------------------------
     def sim(self, family, n, monitor, cfg, seed_off=0, batch=400, extra_args=None, nontrivial=None, scenarios_file=None,
-            package="vh", subcmd="sim", par=6, conf=None, env=None):
+            package="vh", subcmd="sim", par=6, conf=None, env=None, drift_only=False):
         """Run `n` scenarios of a family through the real code, then validate the log(s) with the monitor."""
         binp = self.bin(package)
         seed = self.seed + seed_off
@@ -309,7 +309,15 @@ class Ctx:
                     head = [next(f, "").strip() for _ in range(400)]
                 pick = [h for h in head if h and '"e":"st"' not in h][:6]
                 self.cov["samples"].append({"family": family, "log_head": [json.loads(x) if len(x) < 900 else x[:900] for x in pick]})
-            self.handle_trace_result(tr, family, logp, scs)
+            if drift_only:
+                # a family that validates behaviour beyond the listed property: a rejection is reported, never a violation
+                if tr["violated"]:
+                    line = tr["not_consumed"][0] if tr.get("not_consumed") else 0
+                    self.drift.append({"family": family, "clause": tr["violated"], "log": logp, "line": line})
+                    log("MODEL-DRIFT property=%s clause=%s at %s line %s (not a violation of %s: the implementation no longer matches the specification of this behaviour)"
+                        % (self.prop, tr["violated"], logp, line, self.prop))
+            else:
+                self.handle_trace_result(tr, family, logp, scs)
         self.cov["families"].append(fam)
         log("sim   %-10s %d scenarios, %d events validated by %s" % (family, fam["scenarios"], fam["events"], cfg))
         return fam
